@@ -944,6 +944,10 @@ func runC03(c *Ctx) {
 	c.Rule("R12")
 	c.Share("C06", "R7")
 
+	// R13 the dual provider search ends its inner searches (request context) and closes its channel — C08.R5
+	c.Rule("R13")
+	c08Dual(c)
+
 	// R11 watcher context lives until the function returns
 	c.Rule("R11")
 	{
